@@ -612,7 +612,8 @@ impl<'tcx> Cx<'tcx> {
     fn body(&self, j: &mut J, did: LocalDefId) {
         let tcx = self.tcx;
         let kind = tcx.def_kind(did);
-        let (steal, _promoted) = tcx.mir_promoted(did);
+        let (steal, promoted_steal) = tcx.mir_promoted(did);
+        let promoted_ref = promoted_steal.borrow();
         let body_ref = steal.borrow();
         let body: &Body<'tcx> = &body_ref;
         j.raw("{");
@@ -727,6 +728,22 @@ impl<'tcx> Cx<'tcx> {
                 j.comma();
             }
             self.block(j, body, did, bb);
+        }
+        j.raw("],");
+        j.key("promoted");
+        j.raw("[");
+        for (pi, pb) in promoted_ref.iter().enumerate() {
+            if pi > 0 {
+                j.comma();
+            }
+            j.raw("[");
+            for (i, (_, bb)) in pb.basic_blocks.iter_enumerated().enumerate() {
+                if i > 0 {
+                    j.comma();
+                }
+                self.block(j, pb, did, bb);
+            }
+            j.raw("]");
         }
         j.raw("]}");
     }
